@@ -98,6 +98,9 @@ type Action struct {
 	Kind ActKind
 	At   int // truncate: byte offset modulo frame length
 	N    int // garbage: number of bytes / generator seed
+	// Trail: a reply that makes the plugin a failed one is followed by this many stray bytes,
+	// which the host will never read (more than the pipe holds: the plugin blocks in write)
+	Trail int
 }
 
 type Script struct {
@@ -436,6 +439,19 @@ func scriptedRun(sc *Script, log *PlugLog, stdin io.Reader, stdout io.Writer) in
 				return sc.ExitStatus
 			default:
 				werr = write(ref.Frame(reply))
+				// only after a handshake reply that is itself bad: the host then gives this plugin up
+				// and closes its pipes at once (later on it would first want to say goodbye, and a
+				// plugin that is stuck in write never reads that - a stalled plugin, not our subject)
+				if werr == nil && act.Trail > 0 && st == StepHandshake && !act.Kind.replyGood(st) {
+					pTrail.Hit()
+					if terr := write(garbage(act.N+7, act.Trail)); terr != nil {
+						log.ExitReason = "write-error"
+						if simrt.IsEPIPE(terr) {
+							return 141
+						}
+						return 3
+					}
+				}
 			}
 			if werr != nil {
 				log.ExitReason = "write-error"
@@ -491,6 +507,8 @@ func wrongVersion(v int32, variant int) int32 {
 	}
 	return v + 1
 }
+
+var pTrail = simrt.NewProbe("plugin.stray-output-after-failing-reply")
 
 func buildReply(sc *Script, st Step, k ActKind, req ref.Envelope) []byte {
 	env := ref.Envelope{Name: req.Name, Type: ref.Reply, SeqID: req.SeqID, Strict: true}
